@@ -27,3 +27,5 @@ def run(project, rep):
     rep.run(T.t_r4b_guards_constant, project, rep)
     rep.run(T.t_r5, project, rep)
     rep.run(Z.z_r3_writer_shape, project, rep)
+    from .. import rules_wire as _W2b
+    rep.run(_W2b.l_r2b_every_handwritten_producer_escapes, project, rep)
